@@ -19,7 +19,7 @@ func init() {
 		ID:          "C01",
 		Title:       "Filter evaluation returns exactly the entities satisfying the predicate",
 		Technique:   "static analysis: complete decision tables of the typed comparison/between/null evaluators by abstract interpretation over (nil?, ordering, operator); decision table of the seek-shortcut admission; operator-token/spelling tables compared with the grammar; never-written-operand rule for typed nodes; cursor re-position rule for per-row set symbols; width/sign rule for every fixed-width decode; one-element-per-hop rule for dotted set symbols; id tie-break never cut off; no ==/!= on time.Time; negation stays above a hoisted set function",
-		LevelText:   "Taken whole the property is about results on all datasets × filters and is not statically decidable here. Decided, for all values because values are only touched through comparisons: the full decision table of every Binary*ExprNode / *BetweenExprNode / IsNilExprNode evaluator against the documented semantics (null makes comparisons false except != and the negated contains forms; between is [lower, upper)); that the anyOf seek shortcut is admitted only for `=` (the only operator for which looking at the first element >= v decides the answer) and falls back to a scan when the cursor cannot seek; that every operator token and every spelling the grammar can produce has an operator; that icontains upper-cases both operands; that no typed node has an operand nobody ever sets; that a per-row set cursor is re-positioned whenever it is re-opened. Not decided: that cursors enumerate the right sets (partly C14), dotted-symbol resolution, sub-query scanning, numeric formatting. Added after the seeded rounds: every fixed-width decode runs only under a tag of that width and keeps the sign; a single-valued hop of a dotted set symbol always yields one (possibly null) element; the comparator of the sorted scan always ends with the id tie-break (no truncation after it is appended); datetimes are never compared with ==; what is handed to SetFunctionNode.MoveUpTree is never a NotExprNode. Added later: the per-row symbol cache of the row cursor is emptied by NextRow on every path (ROWCACHE). Added in rounds 8-9: the in-memory store's IsNil never answers from the interface-level nil comparison (NULL, cross-listed); every set predicate walks a cursor made for it (FRESHCURSOR). Added in round 10: a node that is itself a float64 node converts to float64 as itself (TOFLOAT); no BaseStore method hands out a cursor straight over the entities bucket (RAWROWS). Added in round 11: allOf never evaluates through the seek shortcut (SEEKANYOF); a dotted symbol's chain walk ends early only on a nil value (CHAINLEAF). Added in round 12: the key sought in a Seek method is made from that call's argument (SEEKARG).",
+		LevelText:   "Taken whole the property is about results on all datasets × filters and is not statically decidable here. Decided, for all values because values are only touched through comparisons: the full decision table of every Binary*ExprNode / *BetweenExprNode / IsNilExprNode evaluator against the documented semantics (null makes comparisons false except != and the negated contains forms; between is [lower, upper)); that the anyOf seek shortcut is admitted only for `=` (the only operator for which looking at the first element >= v decides the answer) and falls back to a scan when the cursor cannot seek; that every operator token and every spelling the grammar can produce has an operator; that icontains upper-cases both operands; that no typed node has an operand nobody ever sets; that a per-row set cursor is re-positioned whenever it is re-opened. Not decided: that cursors enumerate the right sets (partly C14), dotted-symbol resolution, sub-query scanning, numeric formatting. Added after the seeded rounds: every fixed-width decode runs only under a tag of that width and keeps the sign; a single-valued hop of a dotted set symbol always yields one (possibly null) element; the comparator of the sorted scan always ends with the id tie-break (no truncation after it is appended); datetimes are never compared with ==; what is handed to SetFunctionNode.MoveUpTree is never a NotExprNode. Added later: the per-row symbol cache of the row cursor is emptied by NextRow on every path (ROWCACHE). Added in rounds 8-9: the in-memory store's IsNil never answers from the interface-level nil comparison (NULL, cross-listed); every set predicate walks a cursor made for it (FRESHCURSOR). Added in round 10: a node that is itself a float64 node converts to float64 as itself (TOFLOAT); no BaseStore method hands out a cursor straight over the entities bucket (RAWROWS). Added in round 11: allOf never evaluates through the seek shortcut (SEEKANYOF); a dotted symbol's chain walk ends early only on a nil value (CHAINLEAF). Added in round 12: the key sought in a Seek method is made from that call's argument (SEEKARG). Added in round 13: the rows a child store scans are filtered for child data before the filter runs (SCANFILTER, as in C15); the `in` evaluators decide membership element by element, with no substring or join primitive (INEXACT).",
 		LevelNote:   "Trusted: go/types, x/tools SSA, the DECIDE interpreter (rejects what it cannot evaluate), strings.Contains/ToUpper, time.Time comparisons.",
 		DesignRef:   "DESIGN.md C01",
 		Explanation: "Sites: 5 Binary*ExprNode.EvalBool, 3 *BetweenExprNode.EvalBool, IsNilExprNode.EvalBool, BinaryStringExprNode.IsSeekable/EvalBoolWithSeek, AnyOfSetExprNode.EvalBool, ToBoltListener.VisitTerminal, BinaryExprNode.handleCaseInsensitive, all ast.Node struct fields, entitySetSymbolRuntime.",
